@@ -102,10 +102,26 @@ def gen_series(rng, it):
     return x, m, kind, gk
 
 
+def pick_nodata(valid, salt=0):
+    """A placeholder that no valid cell holds, chosen deterministically from the data among hostile values (0 is falsy,
+    -1 / 1 sit inside the data range, the int16 extremes, the customary -9999)."""
+    import zlib
+
+    cands = [0, -9999, -1, 32767, -32768, 1, 255]
+    v = np.asarray(valid, dtype=np.float64)
+    h = (zlib.crc32(v.tobytes()) + salt) % len(cands)
+    for j in range(len(cands)):
+        c = cands[(h + j) % len(cands)]
+        if not np.any(v == c):
+            return c
+    return -9999
+
+
 def check_series(R, x, m, exact=False, label=""):
     a = ac()
     n = x.size
-    nodata = -9999
+    nodata = pick_nodata(x[~m])
+    R.count(f"nodata_{nodata}")
     xi = np.where(m, nodata, x).astype(np.int16)
     xf = np.where(m, np.nan, x).astype(np.float64)
     case = {"x": x, "missing": m}
@@ -190,7 +206,6 @@ def shard_raster(spec, R):
             break
         ny, nx = int(rng.integers(1, 4)), int(rng.integers(1, 4))
         nt = int(rng.choice([3, 8, 36, 120]))
-        nodata = -9999
         cube = np.empty((ny, nx, nt))
         miss = np.zeros((ny, nx, nt), dtype=bool)
         for p in range(ny):
@@ -199,6 +214,8 @@ def shard_raster(spec, R):
                 idx = np.resize(np.arange(x.size), nt)
                 cube[p, q], miss[p, q] = x[idx], m[idx]
         ref = np.array([[reference(cube[p, q], miss[p, q])[0] for q in range(nx)] for p in range(ny)])
+        nodata = pick_nodata(cube[~miss], salt=it)
+        R.count(f"raster_nodata_{nodata}")
         ci = np.where(miss, nodata, cube).astype(np.int16)
         cf = np.where(miss, np.nan, cube).astype(np.float32)
         R.evaluation()
